@@ -54,7 +54,7 @@ def asbool(v):
     return bool(v)
 
 
-EFFECTFUL = {"every", "counter", "push", "push_distinct", "pop", "put", "stop", "fail_and_stop", "skip", "advance", "fail", "print",
+EFFECTFUL = {"every", "counter", "push", "push_distinct", "pop", "put", "stop", "fail_and_stop", "skip", "advance", "fail", "fail_all", "print",
              "stack", "tally", "sum", "subtotal", "first", "count"}
 
 
@@ -542,7 +542,7 @@ class Spec:
                 raise OutOfClass("advance argument")
             self.advance = v
             return None
-        if name == "fail":
+        if name in ("fail", "fail_all"):
             self.valid = False
             return None
         if name == "print":
